@@ -11,7 +11,7 @@ SPEC = {
         _g("monitor/metrics", "metrics"),
         _g("informer/disk", "disk"),
         _g("informer/numpin", "numpin"),
-        _g("consensus/crdt", "crdt"),
+        _g("consensus/crdt", "crdt", ["crdt/c18_lifecycle_test.go"]),
     ],
     "gen": ["Locksets"],
     "force": ["Gen/Locksets.v", "Proofs/C18_Table.v", "Proofs/C18_Tie.v", "Proofs/C18_WaitTable.v"],
